@@ -321,3 +321,5 @@ func stripInt(q Poly) Poly {
 }
 
 func ratInt(n int64) *big.Rat { return new(big.Rat).SetInt64(n) }
+
+func ratFrac(a, b int64) *big.Rat { return big.NewRat(a, b) }
